@@ -39,6 +39,10 @@ var treePlan = []planEntry{
 	{spaces.XMlRef, 5, 6},
 	{spaces.XNulRef, 5, 6},
 	{spaces.XPhrase, 4, 5},
+	{spaces.XMl, 5, 6},
+	{spaces.XDefs, 5, 6},
+	{spaces.XInfo, 4, 5},
+	{spaces.XRefHead, 6, 7},
 }
 
 // forPlan runs f over every space of a plan at the tier's length.
